@@ -44,6 +44,7 @@ type ROp struct {
 type RCase struct {
 	Ops      []ROp
 	Migrated bool `json:",omitempty"` // the provisioner is served from the admin database
+	ForceCN  bool `json:",omitempty"` // the provisioner has forceCN (an empty common name becomes the first DNS name)
 	Names    bool `json:",omitempty"` // evaluate C13's predicate on every issued certificate
 }
 
@@ -62,6 +63,7 @@ type rworld struct {
 	privs  []*jose.JSONWebKey // the accounts' private keys as JWK with the key id the server computes
 	proved map[int]bool
 	names  bool
+	forceCN bool
 }
 
 func rindex(list []string, id string) int {
@@ -391,7 +393,7 @@ func (w *rworld) exec(op ROp) (tok, out string) {
 		if op.Obj >= 0 && op.Obj < len(w.ids) {
 			ids = w.ids[op.Obj]
 		}
-		csr, der, err := buildCSR(ids, op.How, op.Key)
+		csr, der, err := buildCSRFor(ids, op.How, op.Key, w.forceCN)
 		if err != nil {
 			return "", "csr-error"
 		}
@@ -527,7 +529,7 @@ func (w *rworld) issuedOracle(op ROp, matches bool) string {
 
 func runRouter(e *acmeenv.Env, k *RCase) (line, out string) {
 	js, _ := json.Marshal(k)
-	w := &rworld{e: e, names: k.Names}
+	w := &rworld{e: e, names: k.Names, forceCN: k.ForceCN}
 	toks := make([]string, 0, len(k.Ops))
 	outs := make([]string, 0, len(k.Ops))
 	for _, op := range k.Ops {
@@ -564,10 +566,11 @@ func runRouter(e *acmeenv.Env, k *RCase) (line, out string) {
 		fmt.Sprintf("R%d:%s", total, strings.Join(outs, "|"))
 }
 
-var ridPool = []string{"dns:a.example.com", "dns:b.example.com", "dns:www.example.org", "ip:10.0.0.1", "ip:fd00::1"}
+var ridPool = []string{"dns:a.example.com", "dns:b.example.com", "dns:www.example.org", "ip:10.0.0.1", "ip:fd00::1",
+	"dns:a" + strings.Repeat("c", 59) + ".example.com"} // 72 characters
 
 func genRouter(r *c.Rng) *RCase {
-	k := &RCase{Ops: []ROp{{K: "A"}, {K: "A"}}, Migrated: r.Chance(1, 2)}
+	k := &RCase{Ops: []ROp{{K: "A"}, {K: "A"}}, Migrated: r.Chance(1, 2), ForceCN: r.Chance(1, 3)}
 	type so struct {
 		acct   int
 		chals  []int
@@ -688,6 +691,8 @@ func cornerRouter() []*RCase {
 		{Migrated: true, Ops: []ROp{{K: "A"}, {K: "n", IDs: wireIDs()}, {K: "a", Obj: 0}, {K: "o"}, {K: "f", How: "match"}, {K: "n", IDs: []string{"dns:a.example.com"}}, {K: "r", Obj: 0, How: "ok"}, {K: "f", Obj: 1, How: "match"}}},
 		{Ops: []ROp{{K: "A"}, {K: "n", IDs: wireIDs()}, {K: "r", Obj: 0, How: "ok"}, {K: "f", How: "match"}, {K: "r", Obj: 1, How: "mismatch"}, {K: "n", IDs: wireIDs()},
 			{K: "r", Obj: 2, How: "ok"}, {K: "r", Obj: 3, How: "ok"}, {K: "o", Obj: 1}, {K: "f", Obj: 1, How: "extra"}, {K: "f", Obj: 1, How: "match"}, {K: "x"}, {K: "r", Obj: 0, How: "ok"}}},
+		// forceCN, a name longer than 64 characters: the leaf's common name is that name, whole
+		{ForceCN: true, Migrated: true, Ops: []ROp{{K: "A"}, {K: "n", IDs: []string{"dns:a" + strings.Repeat("c", 59) + ".example.com"}}, {K: "r", Obj: 0, How: "ok"}, {K: "f", How: "match"}}},
 		{Ops: []ROp{{K: "A"}, {K: "n", IDs: wireIDs(true)}, {K: "r", Obj: 0, How: "ok"}, {K: "r", Obj: 1, How: "ok"}, {K: "f", How: "match"}}},
 		{Ops: []ROp{{K: "A"}, {K: "A"}, {K: "n", IDs: []string{"dns:a.example.com"}}, {K: "r", Obj: 0, How: "ok"}, {K: "o"}, {K: "x"},
 			{K: "o"}, {K: "f", How: "match"}, {K: "n", IDs: []string{"dns:b.example.com"}}, {K: "x"}, {K: "k"}, {K: "l"},
